@@ -24,6 +24,7 @@ struct Sched {
   std::vector<double> lsched;
   long first = 0;         // step number of the first step of the simulation (the schedule counts from the step the restraint is created)
   bool periodic = false;  // the variable is a periodic distanceZ (period 4, values in [-2,2)): the moving centre crosses the boundary
+  int tsf = 1;            // timeStepFactor of the restraint: it is updated at the steps that are multiples of tsf and holds its parameters in between
 };
 static const double PERIOD = 4.0;
 static double img(double d, bool periodic) { return periodic ? d - PERIOD * std::floor(d / PERIOD + 0.5) : d; }
@@ -56,6 +57,7 @@ static std::string conf_of(Sched const &s)
   if (s.E) b += " targetEquilSteps " + std::to_string(s.E) + "\n";
   if (s.alpha != 1.0) b += " lambdaExponent " + num(s.alpha) + "\n";
   if (s.acc_work) b += " outputAccumulatedWork on\n";
+  if (s.tsf > 1) b += " timeStepFactor " + std::to_string(s.tsf) + "\n";
   b += "}\n";
   return c + b;
 }
@@ -75,6 +77,10 @@ struct Run {
 
 static const double TRAJ[2][12] = {{1.2, 2.6, 1.9, 3.1, 0.8, 2.2, 1.4, 2.9, 1.7, 2.4, 3.3, 1.1},
                                    {2.0, 2.0, 2.5, 1.5, 3.5, 3.0, 1.0, 2.2, 2.8, 1.9, 2.1, 2.7}};
+
+// with a timeStepFactor the variable is only computed at the restraint's steps, and a restart refuses a value that is further
+// than half a width from the one in the state file: those scenarios move in small steps
+static double xat(Sched const &sc, int traj, long s) { return sc.tsf > 1 ? 2.0 + 0.03 * (TRAJ[traj][s] - 2.0) : TRAJ[traj][s]; }
 
 static void parse_ti(std::string const &log, std::vector<std::pair<double, double>> &out)
 {
@@ -98,7 +104,7 @@ static Run do_run(Sched const &sc, int traj, std::vector<int> const &seg, int L,
   std::string conf = conf_of(sc);
   vproxy *px = new vproxy(2);
   px->keep_log = true;
-  px->x[1] = cvm::rvector(TRAJ[traj][0], 0, 0);
+  px->x[1] = cvm::rvector(xat(sc, traj, 0), 0, 0);
   long const F = sc.first;
   if (F) px->colvars->set_initial_step(F);   // (as an engine does that is told to number its steps from F: known before the configuration is read)
   if (px->config(conf) != 0) { out.ok = false; out.err = px->errtxt; delete px; return out; }
@@ -118,7 +124,7 @@ static Run do_run(Sched const &sc, int traj, std::vector<int> const &seg, int L,
     out.last[s] = q;
   };
   for (long s = 0; s < L; s++) {
-    px->x[1] = cvm::rvector(TRAJ[traj][s], 0, 0);
+    px->x[1] = cvm::rvector(xat(sc, traj, s), 0, 0);
     if (px->step(F + s) != 0) { out.ok = false; out.err = px->errtxt; break; }
     r.count("transitions");
     record(s);
@@ -137,7 +143,7 @@ static Run do_run(Sched const &sc, int traj, std::vector<int> const &seg, int L,
       delete px;
       px = new vproxy(2);
       px->keep_log = true;
-      px->x[1] = cvm::rvector(TRAJ[traj][s], 0, 0);
+      px->x[1] = cvm::rvector(xat(sc, traj, s), 0, 0);
       if (px->config(conf) != 0) { out.ok = false; out.err = px->errtxt; break; }
       if (binary) px->queue_state_binary(sb); else px->queue_state_text(st);
       if (px->step(F + s) != 0) { out.ok = false; out.err = px->errtxt; break; }
@@ -168,7 +174,13 @@ int main(int argc, char **argv)
       {"centers-continuous", C_CONT, 4, 0, 0, 1.0, true, {}},
       {"centers-staged", C_STAGED, 2, 2, 0, 1.0, false, {}},
       {"centers-staged-one-step-stages", C_STAGED, 1, 3, 0, 1.0, false, {}},
-      {"centers-continuous-across-the-periodic-boundary", C_CONT, 4, 0, 0, 1.0, true, {}, true},
+      {"centers-continuous-across-the-periodic-boundary", C_CONT, 4, 0, 0, 1.0, true, {}, 0, true},
+      {"centers-continuous-timeStepFactor3", C_CONT, 4, 0, 0, 1.0, true, {}, 0, false, 3},
+      {"k-continuous-timeStepFactor3", K_CONT, 4, 0, 0, 1.0, true, {}, 0, false, 3},
+      {"decoupling-continuous-timeStepFactor2", D_CONT, 3, 0, 0, 1.0, false, {}, 0, false, 2},
+      {"k-staged-timeStepFactor2-stages-of-4-steps", K_STAGED, 4, 2, 0, 1.0, false, {}, 0, false, 2},
+      {"k-staged-timeStepFactor2-stages-of-3-steps", K_STAGED, 3, 2, 0, 1.0, false, {}, 0, false, 2},
+      {"centers-staged-timeStepFactor2-stages-of-3-steps", C_STAGED, 3, 2, 0, 1.0, false, {}, 0, false, 2},
       {"k-continuous", K_CONT, 4, 0, 0, 1.0, true, {}},
       {"k-continuous-exp2", K_CONT, 5, 0, 0, 2.0, true, {}},
       {"k-staged", K_STAGED, 2, 2, 0, 1.0, false, {}},
@@ -226,7 +238,7 @@ int main(int argc, char **argv)
           bool stage_conv_ok[2] = {true, true};
           for (int s = 0; s < L; s++) {
             Rec const &q = ref.last[s];
-            double lam = std::min(1.0, double(s) / sc.N);
+            double lam = std::min(1.0, double(s - s % sc.tsf) / sc.N);   // (the value of the last step at which the restraint was updated)
             std::string det = base + ",\"step\":" + std::to_string(s);
             switch (sc.kind) {
             case C_CONT: {
@@ -247,7 +259,8 @@ int main(int argc, char **argv)
             default: {
               // staged: stage boundaries every N steps; either boundary convention (change seen at step kN or kN+1)
               for (int off = 0; off <= 1; off++) {
-                int stg = s < off ? 0 : std::min(sc.M, (s - off) / sc.N);
+                int sa = s - s % sc.tsf;   // (the last step at which the restraint was updated)
+                int stg = sa < off ? 0 : std::min(sc.M, (sa - off) / sc.N);
                 double l = sc.kind == K_SCHED ? sc.lsched[stg] : double(stg) / sc.M;
                 double val, got;
                 if (sc.kind == C_STAGED) { val = C0 + l * (C1 - C0); got = q.center; }
@@ -265,6 +278,7 @@ int main(int argc, char **argv)
           // (b) energy closed form at every step with the recorded centre/k
           for (int s = 0; s < L; s++) {
             Rec const &q = ref.last[s];
+            if (s % sc.tsf) continue;   // (between its steps a restraint with a timeStepFactor is not evaluated and reports no energy)
             double e;
             if (is_walls(sc.kind)) {
               double d = (q.x < 1.8 && sc.kind != W_DUPPER) ? q.x - 1.8 : (q.x > 2.4 ? q.x - 2.4 : 0.0);
@@ -331,7 +345,7 @@ int main(int argc, char **argv)
               r.count("ti_lines_checked");
               if (!lam_ok) r.violation(std::string("C06:ti:wrong-lambda-in-output:") + sc.name, base + ",\"stage\":" + std::to_string(stg) + "}");
               else if (!okA2 && !okB2)
-                r.violation(std::string("C06:ti:dA/dLambda-differs-from-stage-mean") + (stg == 0 && sc.E == 0 ? "/first-stage-without-equilibration" : ""),
+                r.violation(std::string("C06:ti:dA/dLambda-differs-from-stage-mean") + (stg == 0 && sc.E == 0 ? "/first-stage-without-equilibration" : "") + (sc.tsf > 1 ? std::string(":") + sc.name : std::string()),
                             base + ",\"stage\":" + std::to_string(stg) + ",\"written\":" + num(got) + ",\"mean_steps_kN+E+1..(k+1)N\":" + num(mA) +
                                 ",\"mean_steps_kN+E..(k+1)N-1\":" + num(mB) + "}");
             }
